@@ -132,6 +132,10 @@ def check_case(acc: Acc, case):
                 if a[1] != b[1]:
                     fails.append(("C07|%s|cross-transmission-combination" % transport,
                                   "result combines a piece received during transmission %d with one received during transmission %d" % (a[1], b[1]), case))
+                elif transport in ("udp", "aa55") and len(res) > len(F) and (res.startswith(F) or res.startswith(F2)):
+                    fails.append(("C07|%s|fragment-plus-longer-remainder-accepted" % transport,
+                                  "result is a complete frame plus %d extra bytes, built from a fragment and a second piece that is "
+                                  "longer than the exact remainder" % (len(res) - len(F)), case))
                 elif transport in ("udp", "aa55") and res != F and res != F2:
                     nec = rw.necessary_rtu(rw.op_read(0xF7, REG, count), res) if transport == "udp" else \
                         rw.necessary_aa55(b"\x01\x86", res)
